@@ -981,3 +981,108 @@ func containsCall(fn *ssa.Function, m CallMatcher, depth int) bool {
 
 // ContainsCall reports whether fn contains a call matching m.
 func ContainsCall(fn *ssa.Function, m CallMatcher) bool { return containsCall(fn, m, 0) }
+
+// RequireAnyGate: every sink is unreachable from entry once the pass edges of
+// ALL gates in the disjunction (plus base, e.g. infeasible edges) are removed;
+// i.e. reaching a sink requires crossing the pass edge of at least one of the
+// gates. Every gate must be tested at least minSites times. When loopAware and
+// all recognised sites lie inside one loop, the sinks are replaced by that
+// loop's back edges (an iteration completes only across a pass edge).
+func (c *Ctx) RequireAnyGate(rule string, fn *ssa.Function, gates []Gate, minSites []int, sinks []ssa.Instruction, sinkDesc string, base map[Edge]bool, loopAware bool) bool {
+	c.Fn(FuncName(fn))
+	var names []string
+	removed := map[Edge]bool{}
+	for e := range base {
+		removed[e] = true
+	}
+	var allSites []*ssa.If
+	for i, g := range gates {
+		names = append(names, g.Name)
+		edges, sites := g.PassEdges(fn)
+		min := 1
+		if i < len(minSites) && minSites[i] > 0 {
+			min = minSites[i]
+		}
+		if len(sites) < min {
+			construct := FuncName(fn) + "|" + strings.Join(names, " ∨ ") + "|" + sinkDesc
+			c.Violate(rule, construct, c.P.Pos(fn.Pos()), fmt.Sprintf("%s tests '%s' %d time(s), expected at least %d: the check is missing", FuncName(fn), g.Name, len(sites), min))
+			return false
+		}
+		for e := range edges {
+			removed[e] = true
+		}
+		allSites = append(allSites, sites...)
+	}
+	construct := FuncName(fn) + "|" + strings.Join(names, " ∨ ") + "|" + sinkDesc
+	useSinks := sinks
+	desc := sinkDesc
+	if loopAware {
+		loops := Loops(fn)
+		var common *Loop
+		ok := true
+		for _, s := range allSites {
+			l := InnermostLoop(loops, s)
+			if l == nil {
+				ok = false
+				break
+			}
+			if common == nil {
+				common = l
+			} else if common != l {
+				// choose the outer one if nested
+				if common.Blocks[l.Header] {
+					// l nested in common: keep common
+				} else if l.Blocks[common.Header] {
+					common = l
+				} else {
+					ok = false
+				}
+			}
+		}
+		if ok && common != nil {
+			// start at the loop body entry; the header must not be reachable again
+			var starts []*ssa.BasicBlock
+			for _, s := range common.Header.Succs {
+				if common.Blocks[s] {
+					starts = append(starts, s)
+				}
+			}
+			r := Reach(fn, ReachOpts{Removed: removed, Starts: starts})
+			hdr := common.Header.Instrs[0]
+			if r.Reachable(hdr) {
+				c.Violate(rule, construct, c.P.Pos(instrPos(hdr)), fmt.Sprintf("in %s the loop at %s can proceed to its next iteration (element accepted) without crossing the pass edge of (%s); witness %s", FuncName(fn), c.P.Pos(instrPos(hdr)), strings.Join(names, " ∨ "), r.Path(c.P, hdr)))
+				return false
+			}
+			c.Hold(rule, construct, c.P.Pos(fn.Pos()), fmt.Sprintf("the per-element loop cannot reach its next iteration once the pass edges of (%s) are removed", strings.Join(names, " ∨ ")))
+			return true
+		}
+	}
+	if len(useSinks) == 0 {
+		c.Violate(rule, construct, c.P.Pos(fn.Pos()), "no sink of kind '"+sinkDesc+"' found")
+		return false
+	}
+	r := Reach(fn, ReachOpts{Removed: removed})
+	for _, s := range useSinks {
+		if r.Reachable(s) {
+			c.Violate(rule, construct, c.P.Pos(instrPos(s)), fmt.Sprintf("%s at %s is reachable in %s without crossing the pass edge of (%s); witness %s", desc, c.P.Pos(instrPos(s)), FuncName(fn), strings.Join(names, " ∨ "), r.Path(c.P, s)))
+			return false
+		}
+	}
+	c.Hold(rule, construct, c.P.Pos(fn.Pos()), fmt.Sprintf("%d sink(s) '%s' unreachable once the pass edges of (%s) are removed", len(useSinks), desc, strings.Join(names, " ∨ ")))
+	return true
+}
+
+// FailEdges returns the non-pass successor edges of the Ifs testing g.
+func (g Gate) FailEdges(fn *ssa.Function) map[Edge]bool {
+	pass, sites := g.PassEdges(fn)
+	out := map[Edge]bool{}
+	for _, s := range sites {
+		for si := range s.Block().Succs {
+			e := Edge{From: s.Block(), Succ: si}
+			if !pass[e] {
+				out[e] = true
+			}
+		}
+	}
+	return out
+}
